@@ -30,6 +30,7 @@ Driver for stream `fees` (C07). One op per line, one observation per line.
   feesvalid <sysfee word> <netfee word>       -> ok | neg-sys | neg-net | too-big   (`FeeFields.feesValid`, uint64 words)
   needm <size> <feePerByte> <attrFees> <netFee> -> <need> <0|1>              (`FeeFields.needM`, `smallNetFeeM`, int64)
   relevant <vector of admit>                 -> 1 | 0                        (`Pack.stillRelevant`)
+  relevantp <nblk> (scratch tx)^nblk <vector of admit> -> 1 | 0              (`Pack.stillRelevantAfter`)
   scratch <notary> <nbal> (primary secondary balance)^nbal <k> (hash sysFee netFee n acc^n c hash^c oracle|-)^k
                                              -> verdicts and final content   (`Pack.scratchAdd` from the empty pool)
 -/
@@ -288,6 +289,13 @@ def runScratch (ts : List String) : Option String := do
     (acc.1 ++ [verdict res.1], res.2)) ([], [])
   pure (String.intercalate "," vs ++ " " ++ String.intercalate "," (((sp.map (·.hash)).mergeSort (· ≤ ·)).map toString))
 
+/-- `relevantp <nblk> (scratch-format tx)^nblk <vector of admit>` -> 1 | 0
+    (`Pack.stillRelevantAfter`: the filter with the scratch pool of the block just accepted; hash id 0 = the transaction) -/
+def runRelevantP (ts : List String) : Option String := do
+  let (blk, r) ← pCounted pScratchTx ts
+  let (c, t, _) ← parseAdmit r
+  pure (if stillRelevantAfter c blk t then "1" else "0")
+
 def step (s : Unit) (ws : List String) : Unit × String :=
   match ws with
   | ["case", k] => (s, s!"case {k}")
@@ -346,6 +354,7 @@ def step (s : Unit) (ws : List String) : Unit × String :=
     | _, _, _, _, _, _, _, _ => (s, "bad-op")
   | "admit" :: ts => (s, (runAdmit ts).getD "bad-op")
   | "relevant" :: ts => (s, (runRelevant ts).getD "bad-op")
+  | "relevantp" :: ts => (s, (runRelevantP ts).getD "bad-op")
   | "scratch" :: ts => (s, (runScratch ts).getD "bad-op")
   | "pack" :: ts =>
     let r : Option String := do
